@@ -297,6 +297,72 @@ theorem c05 (ref : S) (x : S → ℝ) (hx : x ref = 0) (hne : ∀ h, (lv h).None
   exact ⟨hstat, min_of_resid_sums_zero lv t x hne hstat,
     fun y hmin hconn => unique_up_to_shift lv t x hne hstat y hmin hconn⟩
 
+/-- Rows that are identically zero contribute nothing to the normal equations: restricting a system `(A, b)` to a set
+    of rows that contains every non-zero row changes neither `AᵀA` nor `Aᵀb`.  (pyvc proves the rows `find_offsets`
+    assembles one per *present* (level, series) pair; `designA` / `designB` are indexed by all pairs and are zero on
+    the absent ones.) -/
+theorem normal_eq_of_present_rows {R R' C : Type} [Fintype R] [Fintype R'] [Fintype C] [DecidableEq R]
+    (A : Matrix R C ℝ) (b : R → ℝ) (e : R' → R) (he : Function.Injective e)
+    (hz : ∀ r, r ∉ Set.range e → (∀ c, A r c = 0) ∧ b r = 0) :
+    (A.submatrix e id)ᵀ * (A.submatrix e id) = Aᵀ * A
+      ∧ (A.submatrix e id)ᵀ *ᵥ (b ∘ e) = Aᵀ *ᵥ b := by
+  have key : ∀ f : R → ℝ, (∀ r, r ∉ Set.range e → f r = 0) → ∑ r' : R', f (e r') = ∑ r : R, f r := by
+    intro f hf
+    have hm := Finset.sum_map Finset.univ ⟨e, he⟩ f
+    simp only [Function.Embedding.coeFn_mk] at hm
+    rw [← hm]
+    apply Finset.sum_subset (Finset.subset_univ _)
+    intro r _ hr
+    apply hf
+    rintro ⟨r', hr'⟩
+    apply hr
+    simp only [Finset.mem_map, Finset.mem_univ, Function.Embedding.coeFn_mk, true_and]
+    exact ⟨r', hr'⟩
+  constructor
+  · ext i j
+    simp only [Matrix.mul_apply, Matrix.transpose_apply, Matrix.submatrix_apply, id_eq]
+    apply key (fun r => A r i * A r j)
+    intro r hr
+    simp [(hz r hr).1 i]
+  · ext i
+    simp only [Matrix.mulVec, dotProduct, Matrix.transpose_apply, Matrix.submatrix_apply, id_eq, Function.comp_apply]
+    apply key (fun r => A r i * b r)
+    intro r hr
+    simp [(hz r hr).2]
+
+
+/-- The system over the *present* (level, series) pairs -- the rows `find_offsets` actually writes, one per crossing,
+    as proved by pyvc (`row_A`, `row_b`, `row_place`) -- has the same normal equations as `designA`, `designB`, which
+    are indexed by all pairs and vanish on the absent ones. -/
+theorem present_rows_normal_eq (ref : S) :
+    ((designA lv ref).submatrix (Subtype.val : {r : H × S // r.2 ∈ lv r.1} → H × S) id)ᵀ
+        * ((designA lv ref).submatrix (Subtype.val : {r : H × S // r.2 ∈ lv r.1} → H × S) id)
+        = (designA lv ref)ᵀ * designA lv ref
+    ∧ ((designA lv ref).submatrix (Subtype.val : {r : H × S // r.2 ∈ lv r.1} → H × S) id)ᵀ
+          *ᵥ (designB lv t ∘ (Subtype.val : {r : H × S // r.2 ∈ lv r.1} → H × S))
+        = (designA lv ref)ᵀ *ᵥ designB lv t := by
+  apply normal_eq_of_present_rows _ _ _ Subtype.val_injective
+  intro r hr
+  have hm : r.2 ∉ lv r.1 := by
+    intro h
+    exact hr ⟨⟨r, h⟩, rfl⟩
+  constructor
+  · intro c
+    simp [designA, hm]
+  · simp [designB, hm]
+
+/-- C05 for the code as pyvc describes it: the offsets solve the normal equations of the rows actually written. -/
+theorem c05_present_rows (ref : S) (x : S → ℝ) (hx : x ref = 0) (hne : ∀ h, (lv h).Nonempty)
+    (hsolve : (((designA lv ref).submatrix (Subtype.val : {r : H × S // r.2 ∈ lv r.1} → H × S) id)ᵀ
+        * ((designA lv ref).submatrix (Subtype.val : {r : H × S // r.2 ∈ lv r.1} → H × S) id)) *ᵥ x
+      = ((designA lv ref).submatrix (Subtype.val : {r : H × S // r.2 ∈ lv r.1} → H × S) id)ᵀ
+          *ᵥ (designB lv t ∘ (Subtype.val : {r : H × S // r.2 ∈ lv r.1} → H × S))) :
+    (∀ s, ∑ h, (if s ∈ lv h then resid lv t x h s else 0) = 0) ∧ (∀ y, obj lv t x ≤ obj lv t y) := by
+  obtain ⟨h1, h2⟩ := present_rows_normal_eq lv t ref
+  rw [h1, h2] at hsolve
+  obtain ⟨a, b, _⟩ := c05 lv t ref x hx hne hsolve
+  exact ⟨a, b⟩
+
 /-- C06 (lemma over the C05 contract): if some offsets align all pieces perfectly, every
     minimiser aligns them perfectly: at each level all shifted crossings equal the master curve. -/
 theorem c06_perfect_alignment (x : S → ℝ) (hmin : ∀ y, obj lv t x ≤ obj lv t y)
@@ -318,3 +384,4 @@ theorem c06_perfect_alignment (x : S → ℝ) (hmin : ∀ y, obj lv t x ≤ obj 
 end Spowtd
 #print axioms Spowtd.c05
 #print axioms Spowtd.c06_perfect_alignment
+#print axioms Spowtd.c05_present_rows
